@@ -3,6 +3,7 @@ From Coq Require Import String.
 From Coq Require Import List.
 From SV Require Import Base.Base IR.State Fmt.Policy Proofs.PolicyProofs.
 From SV Require Fmt.EdifLex Fmt.EdifFile Fmt.EdifFileSpec Proofs.EdifFileWf.
+From SV Require Fmt.VDoc Fmt.VElab Fmt.VSpec Proofs.VElabWf Fmt.Blif Fmt.BlifRead Fmt.BlifSpec Proofs.BlifC18.
 
 (* whatever the reader body does - return or raise, on any input - the active naming policy after
    the call is the one before it *)
@@ -86,6 +87,22 @@ Proof. repeat split; vm_compute; reflexivity. Qed.
 Example C15_edif_bare_instance_rejected :
   EdifFile.elab_text (C15_edif_text "(instance u1) " "))))") = EdifFile.Err EdifFile.FeShape.
 Proof. vm_compute. reflexivity. Qed.
+
+(* The readers of the other two formats, at document level: whatever the reader model returns - for EVERY document,
+   damaged or not - is a well-formed, self-contained netlist; anything else is an error value (the models are total:
+   structural recursion / explicit fuel, so they cannot hang). These are the C06 / C18 well-formedness theorems, restated
+   here because they are the "completed structure or clean failure" clause of this property for Verilog and EBLIF. The
+   document-level models are tied to sdn.parse on damaged inputs by the C06 (mutated out-of-class documents) and C18
+   (damaged files) runs and by the corruption streams of this check. *)
+Theorem C15_verilog_wf_or_error : forall (d : SV.Fmt.VDoc.vdoc) n,
+  SV.Fmt.VElab.elab d = SV.Fmt.VElab.Ok n -> SV.Fmt.VSpec.wf_nv n.
+Proof. exact SV.Proofs.VElabWf.elab_wf. Qed.
+Print Assumptions C15_verilog_wf_or_error.
+
+Theorem C15_eblif_wf_or_error : forall d n,
+  SV.Fmt.BlifRead.elab d = SV.Fmt.Blif.Ok n -> SV.Fmt.BlifSpec.WF n.
+Proof. exact SV.Proofs.BlifC18.wf_all. Qed.
+Print Assumptions C15_eblif_wf_or_error.
 
 (* Runtime residue (not a theorem, see DESIGN.md): that the PYTHON recursive-descent loops
    terminate on every corrupted token stream is checked on the implementation only, by the
